@@ -13,6 +13,7 @@ package main
 
 import (
 	"bufio"
+	"bytes"
 	"encoding/binary"
 	"encoding/json"
 	"flag"
@@ -355,6 +356,12 @@ func doReplay(args []string) {
 				a.Lines++
 				cp := make([]byte, len(line))
 				copy(cp, line)
+				// MXJ_SUBST: placeholder characters of the specification's alphabet stand for strings the TLA+ side cannot carry
+				// or that would be unwieldy there (multi-byte characters, keys of 40 bytes, values of 4 KiB): replaced in the WHOLE
+				// line, i.e. consistently in the inputs and in the expected results (set per stage by check.py)
+				for _, sb := range lineSubst {
+					cp = bytes.ReplaceAll(cp, sb[0], sb[1])
+				}
 				ch <- cp
 			} else {
 				logw.Write(line)
@@ -617,6 +624,20 @@ func doOne(args []string) {
 	runAtExit()
 	if a.MisCount > 0 {
 		os.Exit(1)
+	}
+}
+
+// lineSubst: from MXJ_SUBST="c=replacement;;c=replacement" (replacements must be valid inside a JSON string inside a JSON string:
+// no quote, no backslash, no control character)
+var lineSubst [][2][]byte
+
+func init() {
+	if v := os.Getenv("MXJ_SUBST"); v != "" {
+		for _, p := range strings.Split(v, ";;") {
+			if i := strings.Index(p, "="); i > 0 {
+				lineSubst = append(lineSubst, [2][]byte{[]byte(p[:i]), []byte(p[i+1:])})
+			}
+		}
 	}
 }
 
